@@ -152,13 +152,25 @@ pub fn create_canonical_request(
 
         // FIXME: check HOST, Content-Type, x-amz-security-token, x-amz-content-sha256
 
+        // values of a repeated header are joined by commas on one line
+        let mut prev_name: Option<&str> = None;
         for &(name, value) in signed_headers.as_ref() {
             if is_skipped_header(name) {
                 continue;
             }
-            ans.push_str(name);
-            ans.push(':');
+            if prev_name == Some(name) {
+                ans.push(',');
+            } else {
+                if prev_name.is_some() {
+                    ans.push('\n');
+                }
+                ans.push_str(name);
+                ans.push(':');
+            }
             push_trimmed_header_value(&mut ans, value);
+            prev_name = Some(name);
+        }
+        if prev_name.is_some() {
             ans.push('\n');
         }
         ans.push('\n');
@@ -166,17 +178,16 @@ pub fn create_canonical_request(
 
     {
         // <SignedHeaders>\n
-        let mut first_flag = true;
+        let mut prev_name: Option<&str> = None;
         for &(name, _) in signed_headers.as_ref() {
-            if is_skipped_header(name) {
+            if is_skipped_header(name) || prev_name == Some(name) {
                 continue;
             }
-            if first_flag {
-                first_flag = false;
-            } else {
+            if prev_name.is_some() {
                 ans.push(';');
             }
             ans.push_str(name);
+            prev_name = Some(name);
         }
 
         ans.push('\n');
@@ -364,30 +375,41 @@ pub fn create_presigned_canonical_request(
     {
         // <CanonicalHeaders>\n
 
+        // values of a repeated header are joined by commas on one line
+        let mut prev_name: Option<&str> = None;
         for &(name, value) in signed_headers.as_ref() {
             if is_skipped_header(name) {
                 continue;
             }
-            ans.push_str(name);
-            ans.push(':');
+            if prev_name == Some(name) {
+                ans.push(',');
+            } else {
+                if prev_name.is_some() {
+                    ans.push('\n');
+                }
+                ans.push_str(name);
+                ans.push(':');
+            }
             push_trimmed_header_value(&mut ans, value);
+            prev_name = Some(name);
+        }
+        if prev_name.is_some() {
             ans.push('\n');
         }
         ans.push('\n');
     }
     {
         // <SignedHeaders>\n
-        let mut first_flag = true;
+        let mut prev_name: Option<&str> = None;
         for &(name, _) in signed_headers.as_ref() {
-            if is_skipped_header(name) {
+            if is_skipped_header(name) || prev_name == Some(name) {
                 continue;
             }
-            if first_flag {
-                first_flag = false;
-            } else {
+            if prev_name.is_some() {
                 ans.push(';');
             }
             ans.push_str(name);
+            prev_name = Some(name);
         }
 
         ans.push('\n');
